@@ -173,7 +173,22 @@ func drawRect(t *tape.Tape, maxSide int) image.Rectangle {
 // that is larger by the given margins; the parent is filled with drawn bytes
 // (extremes included), so pixels outside rect act as sentinels.
 func makeImg(t *tape.Tape, kind int, rect image.Rectangle, sub bool) *Img {
-	if ((kind >= kYCbCr444 && kind <= kYCbCr410) || kind == kNYCbCrA444 || kind == kNYCbCrA420) && (rect.Min.X < 3 || rect.Min.Y < 3) {
+	return makeImgNeg(t, kind, rect, sub, false)
+}
+
+// makeImgNeg is makeImg; with negYCbCr, a third of the subsampled sub-images
+// that were drawn at negative coordinates stay there, inside a parent with
+// eight pixels of slack on every side: image.YCbCr addresses chroma with
+// truncating division, which below zero is not the sample a decoder would
+// mean but is well defined, within the buffers given the slack, and what
+// draw.Draw reads too (the caller still guards the reference with recover).
+func makeImgNeg(t *tape.Tape, kind int, rect image.Rectangle, sub, negYCbCr bool) *Img {
+	subsampled := (kind >= kYCbCr444 && kind <= kYCbCr410) || kind == kNYCbCrA444 || kind == kNYCbCrA420
+	keepNeg := false
+	if negYCbCr && sub && subsampled && (rect.Min.X < 0 || rect.Min.Y < 0) {
+		keepNeg = t.Chance(1, 3)
+	}
+	if subsampled && !keepNeg && (rect.Min.X < 3 || rect.Min.Y < 3) {
 		// image.YCbCr's chroma offset arithmetic (integer division truncating
 		// towards zero) is only right for non-negative coordinates: the standard
 		// library itself panics or mis-addresses below zero, so subsampled sources
@@ -190,6 +205,9 @@ func makeImg(t *tape.Tape, kind int, rect image.Rectangle, sub bool) *Img {
 	pr := rect
 	if sub {
 		pr = image.Rect(rect.Min.X-t.Intn(3), rect.Min.Y-t.Intn(3), rect.Max.X+t.Intn(3), rect.Max.Y+t.Intn(3))
+	}
+	if keepNeg {
+		pr = image.Rect(pr.Min.X-8, pr.Min.Y-8, pr.Max.X+8, pr.Max.Y+8)
 	}
 	parent := newParent(kind, pr)
 	r := t.Sub()
